@@ -610,7 +610,7 @@ int main(int argc, char** argv) {
         + "operands WUX: {2, 3, 0.5, FOPR, WOPR, WOPR 'P*', WOPR P1, WWPR}, GUX: {2, 3, 0.5, FOPR, GOPR, GOPR G1, GWPR}, FUX: {2, 3, 0.5, FOPR, WOPR P1, GOPR G1} (+ sets inside reductions), "
         + "plus an undefined scalar (WOPR P2 / GOPR G2) and an all-undefined set (WOPR 'X*') for <= 1 operator; "
         + (run.quick() ? "bounds: <= 2 operators over the full alphabets; 3 operators over {2,3,0.5} (FUX) and {0.5,WOPR,WWPR} (WUX); functions with <= 1 operator (full) and 2 operators over {0.5,WOPR}; unary minus for WUX/FUX only; "
-                       : "bounds: <= 2 operators over the full alphabets; 3 operators over {2,0.5,FOPR,WOPR,WWPR} (WUX), {0.5,FOPR,GOPR,GWPR} (GUX), {2,3,0.5,FOPR,WOPR P1} (FUX); 4 operators over {2,3,0.5} without and {3,0.5} with parentheses; functions with <= 2 operators; ")
+                       : "bounds: <= 2 operators over the full alphabets; 3 operators over {2,0.5,FOPR,WOPR,WWPR} (WUX), {0.5,FOPR,GOPR,GWPR} (GUX), {2,3,0.5,FOPR} (FUX); 4 operators over {2,3,0.5} without and {3,0.5} with parentheses; functions with <= 1 operator (full alphabets) and 2 operators over {2,0.5,FOPR,WOPR,WWPR} / {0.5,FOPR,GOPR,GWPR} / {2,3,0.5,FOPR,WOPR P1}; ")
         + "oracle: precedence-climbing reference parser + element-wise evaluator written from the statement; distinct = distinct (result vector, tree shape)";
     run.assumptions = {
         "reference parser/evaluator in the harness (rank list of the statement; unary minus binds to the following atom; same-kind U-operator chains are associative)",
@@ -634,7 +634,7 @@ int main(int argc, char** argv) {
     const std::vector<Toks> Num3{{"2"}, {"3"}, {"0.5"}};
     const std::vector<Toks> W3{{"0.5"}, {"WOPR"}, {"WWPR"}};
     const std::vector<Toks> W2{{"0.5"}, {"WOPR"}};
-    const std::vector<Toks> W6{{"2"}, {"0.5"}, {"FOPR"}, {"WOPR"}, {"WOPR", "P1"}, {"WWPR"}};
+    const std::vector<Toks> F4{{"2"}, {"3"}, {"0.5"}, {"FOPR"}};
     const std::vector<Toks> W5{{"2"}, {"0.5"}, {"FOPR"}, {"WOPR"}, {"WWPR"}};
     const std::vector<Toks> G4{{"0.5"}, {"FOPR"}, {"GOPR"}, {"GWPR"}};
     const std::vector<Toks> Num2{{"3"}, {"0.5"}};
@@ -662,11 +662,11 @@ int main(int argc, char** argv) {
     } else {
         regs.push_back({"deep3:W", 'W', W5, 3, 3, true, false, 0, {}});
         regs.push_back({"deep3:G", 'G', G4, 3, 3, true, false, 0, {}});
-        regs.push_back({"deep3:F", 'F', F5, 3, 3, true, false, 0, {}});
+        regs.push_back({"deep3:F", 'F', F4, 3, 3, true, false, 0, {}});
         regs.push_back({"deep3m:F", 'F', Num3, 3, 3, true, true, 0, {}});
         regs.push_back({"deep4:F", 'F', Num3, 4, 4, false, false, 0, {}});
         regs.push_back({"deep4p:F", 'F', Num2, 4, 4, true, false, 0, {}});
-        regs.push_back({"func2:W", 'W', W6, 2, 2, true, false, 1, {}});
+        regs.push_back({"func2:W", 'W', W5, 2, 2, true, false, 1, {}});
         regs.push_back({"func2:G", 'G', G4, 2, 2, true, false, 1, {}});
         regs.push_back({"func2:F", 'F', F5, 2, 2, true, false, 1, Fsets});
     }
